@@ -101,6 +101,51 @@ func copyCoverage(w *World, fn *ssa.Function, T *types.Named, depth int, handled
 									shallow[f.Name()] = y.Pos()
 								}
 							}
+							// a struct value copied whole from the source shares the references inside it,
+							// unless each of them is re-assigned on the copy afterwards
+							if stt, isStruct := f.Type().Underlying().(*types.Struct); isStruct {
+								if sf, base := loadedField(stripConv(y.Val)); sf == f && sourceDerived(fn, base) {
+									for i := 0; i < stt.NumFields(); i++ {
+										nf := stt.Field(i)
+										if !isRefType(nf.Type()) {
+											continue
+										}
+										reassigned := false
+										for _, r3 := range *x.Referrers() {
+											if nfa, ok := r3.(*ssa.FieldAddr); ok && fieldOfAddr(nfa) == nf {
+												for _, r4 := range *nfa.Referrers() {
+													if st4, ok := r4.(*ssa.Store); ok && st4.Addr == nfa {
+														if lf, lb := loadedField(stripConv(st4.Val)); !(lf == nf && lb != nil) {
+															reassigned = true
+														}
+													}
+												}
+											}
+										}
+										// other FieldAddr instructions on the same field of the same base
+										for _, b2 := range fn.Blocks {
+											for _, in2 := range b2.Instrs {
+												if ofa, ok := in2.(*ssa.FieldAddr); ok && ofa != x && fieldOfAddr(ofa) == f && samePath(ofa.X, x.X) {
+													for _, r3 := range *ofa.Referrers() {
+														if nfa, ok := r3.(*ssa.FieldAddr); ok && fieldOfAddr(nfa) == nf {
+															for _, r4 := range *nfa.Referrers() {
+																if st4, ok := r4.(*ssa.Store); ok && st4.Addr == nfa {
+																	if lf, _ := loadedField(stripConv(st4.Val)); lf != nf {
+																		reassigned = true
+																	}
+																}
+															}
+														}
+													}
+												}
+											}
+										}
+										if !reassigned {
+											shallow[f.Name()+"."+nf.Name()] = y.Pos()
+										}
+									}
+								}
+							}
 						}
 					case *ssa.UnOp:
 						// loaded and then mutated through a method / index / map update
@@ -199,13 +244,15 @@ func runC10(c *Ctx) {
 			map[string]string{"db": "the backing database is shared by design"}},
 		{"core/state", "stateObject", "deepCopy", "stateObject",
 			map[string]string{"dbErr": "memoised database error of the source", "addrHash": "recomputed from the address by newObject"},
-			map[string]string{"code": "contract code bytes are immutable once set", "db": "the owning StateDB is passed in"}},
+			map[string]string{"code": "contract code bytes are immutable once set", "db": "the owning StateDB is passed in",
+				"data.Balance": "shared pointer, sound because balances are never mutated in place (companion rule below)", "data.DelegationBalance": "shared pointer, never mutated in place (companion rule below)",
+				"data.CodeHash": "immutable hash bytes", "data.DelegationsHash": "immutable hash bytes"}},
 		{"core/state", "Validator", "PartialCopy", "Validator",
 			map[string]string{},
-			map[string]string{"Delegations": "PartialCopy shares the delegation slice by contract (DeepCopy re-copies it)", "MainPubKey": "immutable key bytes", "BlsPubKey": "immutable key bytes"}},
+			map[string]string{"Delegations": "PartialCopy shares the delegation slice by contract (DeepCopy re-copies it)", "MainPubKey": "immutable key bytes", "BlsPubKey": "immutable key bytes", "Ext.Data": "the extension bytes are replaced by a new slice (UpdateLastActive), never edited in place"}},
 		{"core/state", "Validator", "DeepCopy", "Validator",
 			map[string]string{},
-			map[string]string{"MainPubKey": "immutable key bytes", "BlsPubKey": "immutable key bytes", "Delegations": "re-copied element-wise when non-empty (shared only when empty)"}},
+			map[string]string{"MainPubKey": "immutable key bytes", "BlsPubKey": "immutable key bytes", "Delegations": "re-copied element-wise when non-empty (shared only when empty)", "Ext.Data": "the extension bytes are replaced by a new slice (UpdateLastActive), never edited in place"}},
 		{"core/state", "ValKindStat", "DeepCopy", "ValKindStat", map[string]string{}, map[string]string{}},
 		{"core/state", "WithdrawRecord", "DeepCopy", "WithdrawRecord", map[string]string{}, map[string]string{}},
 		{"core/state", "WithdrawQueue", "DeepCopy", "WithdrawQueue", map[string]string{}, map[string]string{}},
@@ -237,6 +284,19 @@ func runC10(c *Ctx) {
 				c.Fail(key, fn.Pos(), "field "+sp.typ+"."+f.Name()+" is not carried over by "+fn.Name()+": the copy differs from (or depends on) the original")
 				continue
 			}
+			nestedBad := ""
+			var nestedPos token.Pos
+			for k, p := range shallow {
+				if strings.HasPrefix(k, f.Name()+".") {
+					if _, ok := sp.shallowOK[k]; !ok {
+						nestedBad, nestedPos = k, p
+					}
+				}
+			}
+			if nestedBad != "" {
+				c.Fail(key, nestedPos, "the struct field "+sp.typ+"."+f.Name()+" is copied by value from the source, which shares the reference "+nestedBad+" inside it: original and copy write into the same backing storage")
+				continue
+			}
 			if p, sh := shallow[f.Name()]; sh {
 				if r, ok := sp.shallowOK[f.Name()]; ok {
 					c.Pass(key, p, "copied; shared by reference, tabled: "+r)
@@ -262,6 +322,38 @@ func runC10(c *Ctx) {
 	}
 	// balances are never mutated in place (the Account struct is copied by value)
 	c10NoInPlaceBalance(c, w)
+
+	// ------------------------------------------------------------ K5
+	c.Rule("C10.K5", "ALWAYS-WITH", "stateObject.updateTrie records in originStorage every value it flushes to the storage trie — update or delete — before the trie write, with the same key and value: the live object's idea of the committed value must equal what a reopened state reads")
+	c.Min(2)
+	ut := w.Fn("core/state", "stateObject", "updateTrie")
+	c.sawFunc(fname(ut))
+	originF := w.Field("core/state", "stateObject", "originStorage")
+	var originUpd []*ssa.MapUpdate
+	for _, fw := range fieldWrites(ut) {
+		if fw.Field == originF && fw.Kind == "mapupdate" {
+			originUpd = append(originUpd, fw.Instr.(*ssa.MapUpdate))
+		}
+	}
+	nTrie := 0
+	for _, ci := range callInstrs(ut) {
+		o := calleeObj(ci)
+		if o == nil || (o.Name() != "TryUpdate" && o.Name() != "TryDelete") {
+			continue
+		}
+		nTrie++
+		c.sites++
+		ok := false
+		for _, mu := range originUpd {
+			if instrDominates(mu, ci) && inLoop(mu) {
+				ok = true
+			}
+		}
+		c.Check(fmt.Sprintf("%s#%s-after-origin-update", fname(ut), o.Name()), ci.Pos(), ok, ifelse(ok, "originStorage[key] = value dominates the trie write", "a slot is written to (or deleted from) the storage trie without the origin cache being updated first: the live object keeps reading the old committed value, later writes of that value are dropped as no-ops, and the root depends on where the flush happened"))
+	}
+	if nTrie < 2 {
+		c.Undecided(fname(ut)+"#trie-writes", ut.Pos(), "updateTrie no longer has both TryUpdate and TryDelete")
+	}
 
 	// ------------------------------------------------------------ K2
 	c.Rule("C10.K2", "EXHAUSTIVE", "every Trie-typed field of StateDB is opened by New, copied by Copy (CopyTrie of the same field), hashed by IntermediateRoot and committed by Commit")
@@ -444,7 +536,7 @@ func c10Variants() []Variant {
 
 type wrongSource struct {
 	field, from string
-	pos          token.Pos
+	pos         token.Pos
 }
 
 // wrongSourceFields: for every field f of T that fn assigns on the copy — by a
